@@ -74,6 +74,8 @@ type cluster struct {
 	watchGroup *threading.RoutineGroup
 	done       chan lang.PlaceholderType
 	lock       sync.Mutex
+	// reloadLock 串行化 reload，保证 done 与 watchGroup 成对更替。
+	reloadLock sync.Mutex
 }
 
 func newCluster(endpoints []string) *cluster {
@@ -122,9 +124,14 @@ func (c *cluster) watchConnState(cli EtcdClient) {
 }
 
 func (c *cluster) reload(cli EtcdClient) {
-	c.lock.Lock()
+	c.reloadLock.Lock()
+	defer c.reloadLock.Unlock()
+
+	// 等待旧的监听协程退出时不能持有 c.lock：它们处理每个事件都需要 c.lock，否则互相等待。
 	close(c.done)
 	c.watchGroup.Wait()
+
+	c.lock.Lock()
 	c.done = make(chan lang.PlaceholderType)
 	c.watchGroup = threading.NewRoutineGroup()
 	var keys []string
